@@ -175,14 +175,63 @@ def ensure_facts(root=None, jobs=16):
         t0 = time.time()
         os.makedirs(d, exist_ok=True)
         from concurrent.futures import ThreadPoolExecutor
-        jobs_l = [(f, fl, os.path.join(d, os.path.basename(f) + '.json'), root) for f, fl in units]
+        # unit-level cache: a unit whose own text, headers and flags are unchanged is not parsed again (paths are stored root-relative)
+        ucache = os.path.join(CACHE, 'units')
+        os.makedirs(ucache, exist_ok=True)
+        gen = os.path.join(CACHE, 'gen', hashlib.sha1(root.encode()).hexdigest()[:10])
+        hh = hashlib.sha256()
+        hdrs = []
+        for base in (os.path.join(root, 'src'), gen):
+            for dp, dn, fn in os.walk(base):
+                if '/bindings' in dp:
+                    continue
+                hdrs += [os.path.join(dp, x) for x in fn if x.endswith('.h')]
+        for hp in sorted(hdrs):
+            hh.update(hp.replace(root, '<root>').replace(gen, '<gen>').encode())
+            hh.update(open(hp, 'rb').read())
+        hh.update(open(EXTRACT_SRC, 'rb').read())
+        hdr_hash = hh.hexdigest()
+
+        def ukey(f, fl):
+            h = hashlib.sha256()
+            h.update(hdr_hash.encode())
+            h.update(f[len(root):].encode())
+            h.update(open(f, 'rb').read())
+            h.update(' '.join(fl).replace(root, '<root>').replace(gen, '<gen>').encode())
+            return h.hexdigest()[:32]
+        jobs_l = []
+        res = []
+        keys = {}
+        for f, fl in units:
+            out = os.path.join(d, os.path.basename(f) + '.json')
+            uk = ukey(f, fl)
+            keys[f] = uk
+            cp = os.path.join(ucache, uk + '.json')
+            if os.path.exists(cp):
+                txt = open(cp).read().replace('@GEN@', gen).replace('@ROOT@', root)
+                open(out, 'w').write(txt)
+                os.utime(cp, None)
+                res.append((f, True, ''))
+            else:
+                jobs_l.append((f, fl, out, root))
         with ThreadPoolExecutor(max_workers=jobs) as ex:
-            res = list(ex.map(_run_one, jobs_l))
+            fresh = list(ex.map(_run_one, jobs_l))
+        for f, ok, o in fresh:
+            if ok:
+                out = os.path.join(d, os.path.basename(f) + '.json')
+                txt = open(out).read().replace(gen, '@GEN@').replace(root, '@ROOT@')
+                tmpf = os.path.join(ucache, keys[f] + '.json.tmp.%d' % os.getpid())
+                open(tmpf, 'w').write(txt)
+                os.replace(tmpf, os.path.join(ucache, keys[f] + '.json'))
+        res += fresh
+        olds = sorted(glob.glob(os.path.join(ucache, '*.json')), key=os.path.getmtime)
+        for oldf in olds[:-400]:
+            os.unlink(oldf)
         bad = [(f, o) for f, ok, o in res if not ok]
         if bad:
             shutil.rmtree(d, ignore_errors=True)
             raise AnalysisBroken('units failed to parse: ' + '; '.join('%s: %s' % (f, o.strip().splitlines()[-1] if o.strip() else '?') for f, o in bad))
-        meta = {'root': root, 'units': [f for f, _ in units], 'listed_sources': listed, 'extract_s': round(time.time() - t0, 2), 'key': key}
+        meta = {'root': root, 'units': [f for f, _ in units], 'listed_sources': listed, 'extract_s': round(time.time() - t0, 2), 'key': key, 'units_parsed': len(jobs_l), 'units_from_cache': len(units) - len(jobs_l)}
         json.dump(meta, open(meta_p, 'w'))
         # keep the cache small: drop all but the 6 most recent fact sets
         sets = sorted(glob.glob(os.path.join(CACHE, 'facts', '*')), key=os.path.getmtime)
